@@ -684,7 +684,7 @@ func main() {
 		nLint := 32
 		nGen := 48
 		if tier == "thorough" {
-			nLint, nGen = 1000, 1200
+			nLint, nGen = 700, 800
 		}
 		if v := os.Getenv("C04_N"); v != "" {
 			fmt.Sscanf(v, "%d,%d", &nLint, &nGen)
